@@ -228,9 +228,11 @@ impl<'a> RecordIter<'a> {
             && final(buf)@.subrange(0, r->Ok_0 as int) == rec_payload(t) && final(self).rem() == rec_rest(t) }),
         //# C03,C19.skip_truncated_is_error
         first_of(old(self).rem(), record_type as int, bounds@) is Truncated ==> r is Err,
-        // the buffer never shrinks (stale bytes of longer earlier records stay behind the payload)
+        // the buffer never shrinks (stale bytes of longer earlier records stay behind the payload) and holds the whole record returned
         //# C03.skip_buffer_monotone
         r is Ok ==> final(buf)@.len() >= old(buf)@.len(),
+        //# C06.skip_record_within_buffer
+        r is Ok ==> final(buf)@.len() >= r->Ok_0,
         // termination of the callers' loops: every successful call consumes at least one record
         //# C03,C06.skip_advances
         r is Ok ==> final(self).rem().len() < old(self).rem().len(),
@@ -487,6 +489,10 @@ pub open spec fn bundle_wf(p: Seq<u8>, rels: Map<Vec<u8>, String>) -> bool {
     && ws_clean(p, 8)
     && rel_lookup(rels, vstd::utf8::encode_utf8(ws_text(p, 8))) is Some
 }
+/// the record ends before its fixed part, or before one of the two strings it declares (a NULL relationship id has no characters)
+pub open spec fn bundle_short(p: Seq<u8>) -> bool {
+    p.len() < 12 || (le32(p.subrange(8, 12)) != 0xFFFF_FFFF && (!ws_ok(p, 8) || !ws_ok(p, ws_end(p, 8))))
+}
 /// the sheet a well-formed BrtBundleSh declares; None: unknown hsState or part folder (the reader must reject)
 pub open spec fn bundle_decl(p: Seq<u8>, rels: Map<Vec<u8>, String>) -> Option<SheetDecl> {
     match rel_lookup(rels, vstd::utf8::encode_utf8(ws_text(p, 8))) {
@@ -506,7 +512,9 @@ pub enum Wb1 {
     Done { st: WbSt, rest: Seq<u8> },
     /// the stream ends (or a record is truncated) first
     Truncated,
-    /// a BrtWbProp / BrtBundleSh whose payload is shorter than its layout (or NULL relationship id): outside the property's domain
+    /// a BrtWbProp / BrtBundleSh whose payload is shorter than its layout: the reader must reject
+    Short,
+    /// a BrtBundleSh with a NULL, BOM-like or dangling relationship id: outside the property's domain
     Malformed,
     /// a BrtBundleSh the reader must reject
     Rejected,
@@ -518,11 +526,12 @@ pub enum Wb1 {
 pub open spec fn wb1(s: Seq<u8>, st: WbSt, rels: Map<Vec<u8>, String>) -> Wb1 decreases s.len() {
     if !rec_ok(s) || rec_rest(s).len() >= s.len() { Wb1::Truncated }   // (second disjunct never true: lemma_rec_total)
     else if rec_typ(s) == 0x0099 {
-        if rec_payload(s).len() < 1 { Wb1::Malformed }
+        if rec_payload(s).len() < 1 { Wb1::Short }
         else { wb1(rec_rest(s), WbSt { is_1904: rec_payload(s)[0] % 2 == 1, ..st }, rels) }
     }
     else if rec_typ(s) == 0x009C {
-        if !bundle_wf(rec_payload(s), rels) { Wb1::Malformed }
+        if bundle_short(rec_payload(s)) { Wb1::Short }
+        else if !bundle_wf(rec_payload(s), rels) { Wb1::Malformed }
         else {
             match bundle_decl(rec_payload(s), rels) {
                 None => Wb1::Rejected,
@@ -538,11 +547,12 @@ proof fn lemma_wb1_step(s: Seq<u8>, st: WbSt, rels: Map<Vec<u8>, String>)
     ensures wb1(s, st, rels) == (
         if !rec_ok(s) || rec_rest(s).len() >= s.len() { Wb1::Truncated }
         else if rec_typ(s) == 0x0099 {
-            if rec_payload(s).len() < 1 { Wb1::Malformed }
+            if rec_payload(s).len() < 1 { Wb1::Short }
             else { wb1(rec_rest(s), WbSt { is_1904: rec_payload(s)[0] % 2 == 1, ..st }, rels) }
         }
         else if rec_typ(s) == 0x009C {
-            if !bundle_wf(rec_payload(s), rels) { Wb1::Malformed }
+            if bundle_short(rec_payload(s)) { Wb1::Short }
+            else if !bundle_wf(rec_payload(s), rels) { Wb1::Malformed }
             else {
                 match bundle_decl(rec_payload(s), rels) {
                     None => Wb1::Rejected,
@@ -599,6 +609,9 @@ proof fn lemma_bundle_arm(pl: Seq<u8>, rl32: int, relid_bytes: Seq<u8>, hs: int,
         hs == le32(pl),
         name_sub == pl.subrange(12 + 2 * rl32, pl.len() as int),
     ensures
+        // what the reader's checks establish: the record is not short
+        pl.len() >= 12 && rl32 != 0xFFFF_FFFF && pl.len() >= 12 + 2 * rl32 && name_sub.len() >= 4 && name_sub.len() >= 4 + 2 * le32(name_sub)
+            ==> !bundle_short(pl),
         pl.len() >= 12 && ws_ok(pl, 8) && ws_ok(pl, ws_end(pl, 8)) ==> {
             &&& rl32 == le32(pl.subrange(8, 12)) && ws_end(pl, 8) == 12 + 2 * rl32
             &&& ws_text(pl, 8) == dec16(relid_bytes)
@@ -608,6 +621,11 @@ proof fn lemma_bundle_arm(pl: Seq<u8>, rl32: int, relid_bytes: Seq<u8>, hs: int,
             &&& ws_clean(pl, 8) == !has_bom(relid_bytes)
         },
 {
+    if pl.len() >= 12 && rl32 != 0xFFFF_FFFF && pl.len() >= 12 + 2 * rl32 && name_sub.len() >= 4 && name_sub.len() >= 4 + 2 * le32(name_sub) {
+        lemma_le32_sub(pl, 8, pl.len() as int);
+        assert(ws_ok(pl, 8) && ws_end(pl, 8) == 12 + 2 * rl32);
+        lemma_ws_sub(pl, ws_end(pl, 8), name_sub);
+    }
     if pl.len() >= 12 && ws_ok(pl, 8) && ws_ok(pl, ws_end(pl, 8)) {
         lemma_le32_sub(pl, 8, pl.len() as int);
         lemma_le32_sub(pl, 0, pl.len() as int);
@@ -624,12 +642,27 @@ proof fn lemma_name_arm(pl: Seq<u8>, b: Seq<u8>, name_sub: Seq<u8>, str_len: int
         cce_sub == b.skip(9 + str_len),
         rgce == b.subrange(13 + str_len, 13 + str_len + le32(cce_sub)),
     ensures
+        // what the reader's checks establish: the record is not short
+        pl.len() >= 9 && name_sub.len() >= 4 && name_sub.len() >= 4 + 2 * le32(name_sub) && pl.len() >= 13 + str_len
+            && pl.len() >= 13 + str_len + le32(cce_sub) ==> name_wf(pl),
         name_wf(pl) ==> {
             &&& name_sub.len() >= 4 + 2 * le32(name_sub)
             &&& ws_text(pl, 9) == dec16(name_sub.subrange(4, 4 + 2 * le32(name_sub)))
             &&& rgce == name_rgce(pl)
         },
 {
+    if pl.len() >= 9 && name_sub.len() >= 4 && name_sub.len() >= 4 + 2 * le32(name_sub) && pl.len() >= 13 + str_len
+        && pl.len() >= 13 + str_len + le32(cce_sub) {
+        assert(name_sub =~= pl.subrange(9, pl.len() as int));
+        lemma_ws_sub(pl, 9, name_sub);
+        let e = ws_end(pl, 9);
+        assert(ws_ok(pl, 9) && e == 9 + str_len);
+        assert(cce_sub[0] == pl.subrange(e, e + 4)[0] && cce_sub[1] == pl.subrange(e, e + 4)[1] && cce_sub[2] == pl.subrange(e, e + 4)[2] && cce_sub[3] == pl.subrange(e, e + 4)[3]) by {
+            assert(b.subrange(0, pl.len() as int)[e] == b[e] && b.subrange(0, pl.len() as int)[e + 1] == b[e + 1]
+                && b.subrange(0, pl.len() as int)[e + 2] == b[e + 2] && b.subrange(0, pl.len() as int)[e + 3] == b[e + 3]);
+        }
+        assert(name_wf(pl));
+    }
     if name_wf(pl) {
         assert(name_sub =~= pl.subrange(9, pl.len() as int));
         lemma_ws_sub(pl, 9, name_sub);
@@ -797,7 +830,9 @@ pub enum Wb2 {
     /// an "after names" record reached: the defined names in record order, the extern-sheet names
     Done { st: Wb2St },
     Truncated,
-    /// a BrtExternSheet / BrtName shorter than its layout: outside the property's domain
+    /// a BrtWbProp / BrtBundleSh / BrtExternSheet / BrtName shorter than its layout: the reader must reject
+    Short,
+    /// (from the sheet list only) a BrtBundleSh with a NULL, BOM-like or dangling relationship id: outside the property's domain
     Malformed,
     /// a name whose formula the renderer rejects
     Rejected,
@@ -810,11 +845,11 @@ pub open spec fn wb2(s: Seq<u8>, st: Wb2St, shn: Seq<Seq<char>>) -> Wb2 decrease
     else if after_names(rec_typ(s)) { Wb2::Done { st } }   // the reader need not look further than the type of that record
     else if !rec_ok(s) || rec_rest(s).len() >= s.len() { Wb2::Truncated }
     else if rec_typ(s) == 0x016A {
-        if !xti_wf(rec_payload(s)) { Wb2::Malformed }
+        if !xti_wf(rec_payload(s)) { Wb2::Short }
         else { wb2(rec_rest(s), Wb2St { ext: xti_names(rec_payload(s), shn), ..st }, shn) }
     }
     else if rec_typ(s) == 0x0027 {
-        if !name_wf(rec_payload(s)) { Wb2::Malformed }
+        if !name_wf(rec_payload(s)) { Wb2::Short }
         else {
             match formula_text(name_rgce(rec_payload(s)), st.ext, st.names) {
                 None => Wb2::Rejected,
@@ -830,11 +865,11 @@ proof fn lemma_wb2_step(s: Seq<u8>, st: Wb2St, shn: Seq<Seq<char>>)
         else if after_names(rec_typ(s)) { Wb2::Done { st } }
         else if !rec_ok(s) || rec_rest(s).len() >= s.len() { Wb2::Truncated }
         else if rec_typ(s) == 0x016A {
-            if !xti_wf(rec_payload(s)) { Wb2::Malformed }
+            if !xti_wf(rec_payload(s)) { Wb2::Short }
             else { wb2(rec_rest(s), Wb2St { ext: xti_names(rec_payload(s), shn), ..st }, shn) }
         }
         else if rec_typ(s) == 0x0027 {
-            if !name_wf(rec_payload(s)) { Wb2::Malformed }
+            if !name_wf(rec_payload(s)) { Wb2::Short }
             else {
                 match formula_text(name_rgce(rec_payload(s)), st.ext, st.names) {
                     None => Wb2::Rejected,
@@ -851,6 +886,7 @@ pub open spec fn wb_names(bytes: Seq<u8>, is_1904: bool, rels: Map<Vec<u8>, Stri
     match wb1(bytes, WbSt { is_1904, sheets: Seq::empty() }, rels) {
         Wb1::Done { st, rest } => wb2(rest, Wb2St { names: Seq::empty(), ext: old_ext }, old_names + decl_names(st.sheets)),
         Wb1::Truncated => Wb2::Truncated,
+        Wb1::Short => Wb2::Short,
         Wb1::Malformed => Wb2::Malformed,
         Wb1::Rejected => Wb2::Rejected,
     }
@@ -867,7 +903,7 @@ pub open spec fn sst_bounds() -> Seq<(u16, Option<u16>)> { seq![(0x0023u16, Some
 pub enum Sst {
     Done { items: Seq<Seq<char>> },
     Truncated,
-    /// BrtBeginSst shorter than 8 bytes / an item whose string is longer than its record: outside the property's domain
+    /// BrtBeginSst shorter than 8 bytes / an item without its flag byte or whose string is longer than its record: the reader must reject
     Malformed,
     /// a future-record block comes before an item (see First::Blocked)
     Blocked,
@@ -909,28 +945,6 @@ pub open spec fn sst_part(s: Seq<u8>) -> Sst {
         First::Blocked => Sst::Blocked,
     }
 }
-/// what `wide_str(&buf[off..])` sees when the buffer holds the payload p (possibly followed by stale bytes of earlier records)
-proof fn lemma_ws_buf(b: Seq<u8>, p: Seq<u8>, off: int)
-    requires b.len() >= p.len(), b.subrange(0, p.len() as int) == p, ws_ok(p, off),
-    ensures ({
-        let sub = b.subrange(off, b.len() as int);
-        le32(sub) == le32(p.subrange(off, off + 4)) && sub.len() >= 4 + 2 * le32(sub)
-        && sub.subrange(4, 4 + 2 * le32(sub)) == p.subrange(off + 4, ws_end(p, off)) }),
-{
-    let sub = b.subrange(off, b.len() as int);
-    let q = p.subrange(off, off + 4);
-    assert(sub[0] == q[0] && sub[1] == q[1] && sub[2] == q[2] && sub[3] == q[3]) by {
-        assert(b.subrange(0, p.len() as int)[off] == b[off] && b.subrange(0, p.len() as int)[off + 1] == b[off + 1]
-            && b.subrange(0, p.len() as int)[off + 2] == b[off + 2] && b.subrange(0, p.len() as int)[off + 3] == b[off + 3]);
-    }
-    let n = le32(sub);
-    let x = sub.subrange(4, 4 + 2 * n); let y = p.subrange(off + 4, ws_end(p, off));
-    assert forall|j: int| 0 <= j < 2 * n implies #[trigger] x[j] == y[j] by {
-        assert(b.subrange(0, p.len() as int)[off + 4 + j] == b[off + 4 + j]);
-    }
-    assert(x =~= y);
-}
-
 // =====================================================================================================================
 // SPECIFICATION of xl/styles.bin ([MS-XLSB] 2.1.7.50): BrtBeginFmts 0x0267 (count u32) + BrtFmt 0x002C (ifmt u16 @0, stFmtCode
 // XLWideString @2) records; BrtBeginCellXFs 0x0269 (count u32) + BrtXF 0x002F (ixfeParent u16 @0, iFmt u16 @2) records.
@@ -967,7 +981,9 @@ pub enum Styles {
     /// all declared cell XFs read: their classes in record order
     Done { xfs: Seq<CellFormat> },
     Truncated,
-    /// a record shorter than its layout, or a BrtFmt whose id is outside the ranges of the format: outside the property's domain
+    /// a record shorter than its layout (count, format id + string, XF): the reader must reject
+    Short,
+    /// a BrtFmt whose id is outside the ranges of the format: outside the property's domain
     Malformed,
 }
 #[verifier::opaque]
@@ -979,15 +995,15 @@ pub open spec fn styles(s: Seq<u8>, st: StSt) -> Styles decreases s.len() {
         match st.mode {
             StMode::Top =>
                 if rec_typ(s) == 0x0267 {
-                    if p.len() < 4 { Styles::Malformed }
+                    if p.len() < 4 { Styles::Short }
                     else { styles(rec_rest(s), StSt { mode: if le32(p) == 0 { StMode::Top } else { StMode::Fmts { left: le32(p) as nat } }, ..st }) }
                 } else if rec_typ(s) == 0x0269 {
-                    if p.len() < 4 { Styles::Malformed }
+                    if p.len() < 4 { Styles::Short }
                     else { styles(rec_rest(s), StSt { mode: StMode::Xfs { left: le32(p) as nat }, ..st }) }
                 } else { styles(rec_rest(s), st) },
             StMode::Fmts { left } =>
                 if rec_typ(s) == 0x002C {
-                    if p.len() < 2 || !ws_ok(p, 2) || !fmt_id_ok(le16(p)) { Styles::Malformed }
+                    if p.len() < 2 || !ws_ok(p, 2) { Styles::Short } else if !fmt_id_ok(le16(p)) { Styles::Malformed }
                     else {
                         styles(rec_rest(s), StSt { custom: st.custom.insert(le16(p) as u16, custom_class(ws_text(p, 2))),
                             mode: if left == 1 { StMode::Top } else { StMode::Fmts { left: (left - 1) as nat } }, ..st })
@@ -995,7 +1011,7 @@ pub open spec fn styles(s: Seq<u8>, st: StSt) -> Styles decreases s.len() {
                 } else { styles(rec_rest(s), st) },
             StMode::Xfs { left } =>
                 if rec_typ(s) == 0x002F {
-                    if p.len() < 4 { Styles::Malformed }
+                    if p.len() < 4 { Styles::Short }
                     else { styles(rec_rest(s), StSt { xfs: st.xfs.push(xf_class(le16(p.subrange(2, 4)), st.custom)), mode: StMode::Xfs { left: (left - 1) as nat }, ..st }) }
                 } else { styles(rec_rest(s), st) },
         }
@@ -1010,15 +1026,15 @@ proof fn lemma_styles_step(s: Seq<u8>, st: StSt)
             match st.mode {
                 StMode::Top =>
                     if rec_typ(s) == 0x0267 {
-                        if p.len() < 4 { Styles::Malformed }
+                        if p.len() < 4 { Styles::Short }
                         else { styles(rec_rest(s), StSt { mode: if le32(p) == 0 { StMode::Top } else { StMode::Fmts { left: le32(p) as nat } }, ..st }) }
                     } else if rec_typ(s) == 0x0269 {
-                        if p.len() < 4 { Styles::Malformed }
+                        if p.len() < 4 { Styles::Short }
                         else { styles(rec_rest(s), StSt { mode: StMode::Xfs { left: le32(p) as nat }, ..st }) }
                     } else { styles(rec_rest(s), st) },
                 StMode::Fmts { left } =>
                     if rec_typ(s) == 0x002C {
-                        if p.len() < 2 || !ws_ok(p, 2) || !fmt_id_ok(le16(p)) { Styles::Malformed }
+                        if p.len() < 2 || !ws_ok(p, 2) { Styles::Short } else if !fmt_id_ok(le16(p)) { Styles::Malformed }
                         else {
                             styles(rec_rest(s), StSt { custom: st.custom.insert(le16(p) as u16, custom_class(ws_text(p, 2))),
                                 mode: if left == 1 { StMode::Top } else { StMode::Fmts { left: (left - 1) as nat } }, ..st })
@@ -1026,7 +1042,7 @@ proof fn lemma_styles_step(s: Seq<u8>, st: StSt)
                     } else { styles(rec_rest(s), st) },
                 StMode::Xfs { left } =>
                     if rec_typ(s) == 0x002F {
-                        if p.len() < 4 { Styles::Malformed }
+                        if p.len() < 4 { Styles::Short }
                         else { styles(rec_rest(s), StSt { xfs: st.xfs.push(xf_class(le16(p.subrange(2, 4)), st.custom)), mode: StMode::Xfs { left: (left - 1) as nat }, ..st }) }
                     } else { styles(rec_rest(s), st) },
             }
@@ -1188,6 +1204,10 @@ pub open spec fn strs(v: Seq<String>) -> Seq<Seq<char>> { v.map_values(|s: Strin
         //# C06,C10.styles_truncated_is_error
         ({ let t = styles(part_bytes(old(self).zip, styles_path())->Some_0, StSt { custom: Map::empty(), xfs: Seq::empty(), mode: StMode::Top });
            part_bytes(old(self).zip, styles_path()) is Some && t is Truncated ==> r is Err }),
+        // a count record, BrtFmt or BrtXF shorter than its layout is an error (never a panic, never stale bytes read as data)
+        //# C06,C10.styles_short_record_is_error
+        ({ let t = styles(part_bytes(old(self).zip, styles_path())->Some_0, StSt { custom: Map::empty(), xfs: Seq::empty(), mode: StMode::Top });
+           part_bytes(old(self).zip, styles_path()) is Some && t is Short ==> r is Err }),
         //# C07.styles_read_frame
         final(self).sheets@ == old(self).sheets@ && final(self).strings@ == old(self).strings@ && final(self).is_1904 == old(self).is_1904,
 //@@ after /let mut number_formats = BTreeMap::new\(\);/
@@ -1224,7 +1244,7 @@ pub open spec fn strs(v: Seq<String>) -> Seq<Seq<char>> { v.map_values(|s: Strin
 //@@ before /match iter\.read_type\(\)\? \{/
             let ghost h = cur;
             proof { lemma_styles_step(h, st); lemma_rec_total(h); }
-//@@ after /let size = iter\.fill_buffer\(&mut buf\)\?;/#0of2
+//@@ after /let \w+ = iter\.fill_buffer\(&mut buf\)\?;/#0of3
                     let ghost pl = rec_payload(h);
                     proof { lemma_rec_read(h); assert(buf@ =~= pl); cur = rec_rest(h); }
 //@@ after /let len = read_usize\([^;]*;/#0of2
@@ -1237,7 +1257,7 @@ pub open spec fn strs(v: Seq<String>) -> Seq<Seq<char>> { v.map_values(|s: Strin
                             part_bytes(old(self).zip, styles_path()) is Some, s0 == part_bytes(old(self).zip, styles_path())->Some_0,
                             st0 == (StSt { custom: Map::<u16, CellFormat>::empty(), xfs: Seq::<CellFormat>::empty(), mode: StMode::Top }),
                             tot == styles(s0, st0), f0 == old(self).formats@, bad == (tot is Malformed),
-                            pl.len() < 4 ==> bad,
+                            pl.len() >= 4,
                             bad || (len as int == le32(pl) && tot == styles(cur, st) && number_formats@ == st.custom
                                 && st.mode == (if it.index@ < len { StMode::Fmts { left: (len - it.index@) as nat } } else { StMode::Top })),
                             cur == iter.rem(), cur.len() < h.len(),
@@ -1245,7 +1265,7 @@ pub open spec fn strs(v: Seq<String>) -> Seq<Seq<char>> { v.map_values(|s: Strin
                             forall|k: u16| #[trigger] st.custom.contains_key(k) ==> fmt_id_ok(k as int),
                             bad || self.formats@ == f0 + st.xfs,
                             self.sheets@ == old(self).sheets@, self.strings@ == old(self).strings@, self.is_1904 == old(self).is_1904,
-//@@ before /let size = iter\.next_skip_blocks\(/#0of2
+//@@ before /let \w+ = iter\.next_skip_blocks\(/#0of2
                         let ghost g = cur;
                         let ghost f = first_of(g, 0x002C, Seq::<(u16, Option<u16>)>::empty());
                         proof {
@@ -1255,14 +1275,16 @@ pub open spec fn strs(v: Seq<String>) -> Seq<Seq<char>> { v.map_values(|s: Strin
                             if !bad { lemma_styles_seek(g, st, 0x002C); }
                             if f is Found { lemma_styles_step(f->at, st); lemma_first_of_at(g, 0x002C, Seq::<(u16, Option<u16>)>::empty()); }
                         }
-//@@ after /let size = iter\.next_skip_blocks\([^;]*;/#0of2
+//@@ after /let \w+ = iter\.next_skip_blocks\([^;]*;/#0of2
                         proof { cur = iter.rem(); }
 //@@ before /number_formats\s*\.insert\(/
                         proof {
                             axiom_cow_str();
                             let p = rec_payload(f->at);
                             if f is Found && p.len() >= 2 && ws_ok(p, 2) {
-                                lemma_ws_buf(buf@, p, 2);
+                                // `wide_str(&buf[2..size])` sees the XLWideString at offset 2 of the payload, not the stale bytes behind it
+                                assert(buf@.subrange(2, p.len() as int) =~= p.subrange(2, p.len() as int));
+                                lemma_ws_sub(p, 2, p.subrange(2, p.len() as int));
                                 assert(buf@.subrange(0, p.len() as int)[0] == buf@[0] && buf@.subrange(0, p.len() as int)[1] == buf@[1]);
                                 // BrtFmt: the format id and its format string
                                 //# C10.custom_format_registered
@@ -1277,7 +1299,7 @@ pub open spec fn strs(v: Seq<String>) -> Seq<Seq<char>> { v.map_values(|s: Strin
                                     mode: if len - it.index@ == 1 { StMode::Top } else { StMode::Fmts { left: (len - it.index@ - 1) as nat } }, ..st };
                             }
                         }
-//@@ after /let size = iter\.fill_buffer\(&mut buf\)\?;/#1of2
+//@@ after /let \w+ = iter\.fill_buffer\(&mut buf\)\?;/#1of3
                     let ghost pl = rec_payload(h);
                     proof { lemma_rec_read(h); assert(buf@ =~= pl); cur = rec_rest(h); }
 //@@ after /let len = read_usize\([^;]*;/#1of2
@@ -1290,7 +1312,7 @@ pub open spec fn strs(v: Seq<String>) -> Seq<Seq<char>> { v.map_values(|s: Strin
                             part_bytes(old(self).zip, styles_path()) is Some, s0 == part_bytes(old(self).zip, styles_path())->Some_0,
                             st0 == (StSt { custom: Map::<u16, CellFormat>::empty(), xfs: Seq::<CellFormat>::empty(), mode: StMode::Top }),
                             tot == styles(s0, st0), f0 == old(self).formats@, bad == (tot is Malformed),
-                            pl.len() < 4 ==> bad,
+                            pl.len() >= 4,
                             bad || (len as int == le32(pl) && tot == styles(cur, st) && number_formats@ == st.custom
                                 && st.mode == (StMode::Xfs { left: (len - it.index@) as nat })),
                             cur == iter.rem(), cur.len() < h.len(),
@@ -1298,7 +1320,7 @@ pub open spec fn strs(v: Seq<String>) -> Seq<Seq<char>> { v.map_values(|s: Strin
                             forall|k: u16| #[trigger] st.custom.contains_key(k) ==> fmt_id_ok(k as int),
                             bad || self.formats@ == f0 + st.xfs,
                             self.sheets@ == old(self).sheets@, self.strings@ == old(self).strings@, self.is_1904 == old(self).is_1904,
-//@@ before /let size = iter\.next_skip_blocks\(/#1of2
+//@@ before /let \w+ = iter\.next_skip_blocks\(/#1of2
                         let ghost g = cur;
                         let ghost f = first_of(g, 0x002F, Seq::<(u16, Option<u16>)>::empty());
                         let ghost fv = self.formats@;
@@ -1309,7 +1331,7 @@ pub open spec fn strs(v: Seq<String>) -> Seq<Seq<char>> { v.map_values(|s: Strin
                             if !bad { lemma_styles_seek(g, st, 0x002F); }
                             if f is Found { lemma_styles_step(f->at, st); lemma_first_of_at(g, 0x002F, Seq::<(u16, Option<u16>)>::empty()); }
                         }
-//@@ after /let size = iter\.next_skip_blocks\([^;]*;/#1of2
+//@@ after /let \w+ = iter\.next_skip_blocks\([^;]*;/#1of2
                         proof { cur = iter.rem(); }
 //@@ after /let fmt_code = read_u16\([^;]*;/#1of2
                         proof {
@@ -1334,7 +1356,7 @@ pub open spec fn strs(v: Seq<String>) -> Seq<Seq<char>> { v.map_values(|s: Strin
                         }
 //@@ before /break;/
                     proof { if !bad { lemma_styles_step(cur, st); } }
-//@@ after /let _ = iter\.fill_buffer\(&mut buf\)\?;/
+//@@ after /let \w+ = iter\.fill_buffer\(&mut buf\)\?;/#2of3
                     // a record kind the reader does not interpret is passed over whole
                     proof { lemma_rec_read(h); cur = rec_rest(h); }
 //@@ end
@@ -1351,6 +1373,9 @@ pub open spec fn strs(v: Seq<String>) -> Seq<Seq<char>> { v.map_values(|s: Strin
         // a declared count that the stream does not honour ends in an error (C06: no hang, no partial table reported as complete)
         //# C06,C19.sst_truncated_is_error
         part_bytes(old(self).zip, sst_path()) is Some && sst_part(part_bytes(old(self).zip, sst_path())->Some_0) is Truncated ==> r is Err,
+        // a BrtBeginSst shorter than 8 bytes, an item without its flag byte or whose string is longer than its record: error
+        //# C06,C19.sst_malformed_is_error
+        part_bytes(old(self).zip, sst_path()) is Some && sst_part(part_bytes(old(self).zip, sst_path())->Some_0) is Malformed ==> r is Err,
         //# C07.sst_read_frame
         final(self).sheets@ == old(self).sheets@ && final(self).formats@ == old(self).formats@ && final(self).is_1904 == old(self).is_1904,
 //@@ after /let mut buf = Vec::with_capacity\(1024\);/
@@ -1384,13 +1409,12 @@ pub open spec fn strs(v: Seq<String>) -> Seq<Seq<char>> { v.map_values(|s: Strin
                 //# C19.sst_items_in_step
                 part_bytes(old(self).zip, sst_path()) is Some,
                 s0 == part_bytes(old(self).zip, sst_path())->Some_0, str0 == old(self).strings@,
-                !good ==> !(sst_part(s0) is Done) && !(sst_part(s0) is Truncated),
-                good ==> sst_part(s0) == tot,
-                good ==> (tot is Malformed || tot is Blocked || tot == sst_items(iter.rem(), (len - it.index@) as nat, items)),
-                good && !(tot is Malformed) && !(tot is Blocked) ==> strs(self.strings@) == strs(str0) + items,
+                good, sst_part(s0) == tot,
+                tot is Blocked || tot == sst_items(iter.rem(), (len - it.index@) as nat, items),
+                !(tot is Blocked) ==> strs(self.strings@) == strs(str0) + items,
                 it.index@ <= len,
                 self.sheets@ == old(self).sheets@, self.formats@ == old(self).formats@, self.is_1904 == old(self).is_1904,
-//@@ before /let size = iter\.next_skip_blocks\(/#1of2
+//@@ before /let \w+ = iter\.next_skip_blocks\(/#1of2
             let ghost h = iter.rem();
             let ghost sv = self.strings@;
             let ghost f = first_of(h, 0x0013, sst_bounds());
@@ -1403,12 +1427,17 @@ pub open spec fn strs(v: Seq<String>) -> Seq<Seq<char>> { v.map_values(|s: Strin
 //@@ before /self\.strings\.push\(wide_str/
             proof {
                 axiom_cow_owned_str_all();
-                if f is Found && ws_ok(rec_payload(f->at), 1) { lemma_ws_buf(buf@, rec_payload(f->at), 1); }
+                if f is Found {
+                    // `wide_str(&buf[1..size])` sees the XLWideString at offset 1 of the payload, not the stale bytes behind it
+                    let p = rec_payload(f->at);
+                    assert(buf@.subrange(1, p.len() as int) =~= p.subrange(1, p.len() as int));
+                    if p.len() >= 5 { lemma_ws_sub(p, 1, p.subrange(1, p.len() as int)); }
+                }
             }
 //@@ after /self\.strings\.push\(wide_str[^;]*;/
             proof {
                 assert(self.strings@ =~= sv.push(self.strings@.last()));
-                if good && !(tot is Malformed) && !(tot is Blocked) {
+                if !(tot is Blocked) {
                     // the i-th entry of the table is the text of the i-th BrtSSTItem (XLWideString at offset 1)
                     //# C19.sst_item_text
                     assert(self.strings@.last()@ == ws_text(rec_payload(f->at), 1));
@@ -1458,6 +1487,10 @@ impl Xlsb<VerifRs> {
         //# C16.truncated_or_rejected_is_error
         ({ let w = wb_names(part_bytes(old(self).zip, wb_path())->Some_0, old(self).is_1904, relationships@, names_of(old(self).sheets@), strs(old(self).extern_sheets@));
            part_bytes(old(self).zip, wb_path()) is Some && (w is Truncated || w is Rejected) ==> r is Err }),
+        // a BrtWbProp, BrtBundleSh, BrtExternSheet or BrtName shorter than its layout is an error (never a panic)
+        //# C06,C16.short_record_is_error
+        ({ let w = wb_names(part_bytes(old(self).zip, wb_path())->Some_0, old(self).is_1904, relationships@, names_of(old(self).sheets@), strs(old(self).extern_sheets@));
+           part_bytes(old(self).zip, wb_path()) is Some && w is Short ==> r is Err }),
         //# C07.workbook_read_frame
         final(self).strings@ == old(self).strings@ && final(self).formats@ == old(self).formats@,
 //@@ after /let mut buf = Vec::with_capacity\(1024\);/
@@ -1502,6 +1535,7 @@ impl Xlsb<VerifRs> {
                 wb_names(s0, st0.is_1904, rels, oldn, olde) is Done ==> wb1(s0, st0, rels) is Done,
                 wb1(s0, st0, rels) is Truncated ==> wb_names(s0, st0.is_1904, rels, oldn, olde) is Truncated,
                 wb1(s0, st0, rels) is Rejected ==> wb_names(s0, st0.is_1904, rels, oldn, olde) is Rejected,
+                wb1(s0, st0, rels) is Short ==> wb_names(s0, st0.is_1904, rels, oldn, olde) is Short,
                 wb1(s0, st0, rels) is Malformed ==> wb_names(s0, st0.is_1904, rels, oldn, olde) is Malformed,
                 s0 == part_bytes(old(self).zip, wb_path())->Some_0, part_bytes(old(self).zip, wb_path()) is Some,
                 st0 == (WbSt { is_1904: old(self).is_1904, sheets: Seq::empty() }),
@@ -1513,13 +1547,13 @@ impl Xlsb<VerifRs> {
 //@@ before /match iter\.read_type\(\)\? \{/
             let ghost h = cur;
             proof { lemma_wb1_step(h, st, rels); lemma_rec_total(h); }
-//@@ after /let len = iter\.fill_buffer\(&mut buf\)\?;/#0of4
+//@@ after /let \w+ = iter\.fill_buffer\(&mut buf\)\?;/#0of7
                     proof {
                         lemma_rec_read(h);
                         assert(buf@ =~= rec_payload(h));
                         cur = rec_rest(h);
                     }
-//@@ after /let _ = iter\.fill_buffer\(&mut buf\)\?;/#0of3
+//@@ after /let \w+ = iter\.fill_buffer\(&mut buf\)\?;/#2of7
                     proof {
                         // BrtEndBundleShs is a record like any other: its size field (and payload) belong to it
                         lemma_rec_read(h);
@@ -1527,10 +1561,10 @@ impl Xlsb<VerifRs> {
                     }
                     //# C03,C16.end_bundle_record_skipped_whole
                     assert(rec_ok(h) && iter.rem() == rec_rest(h));
-//@@ after /let _ = iter\.fill_buffer\(&mut buf\)\?;/#1of3
+//@@ after /let \w+ = iter\.fill_buffer\(&mut buf\)\?;/#3of7
                     // a record kind the reader does not interpret is passed over whole
                     proof { lemma_rec_read(h); cur = rec_rest(h); }
-//@@ after /let _ = iter\.fill_buffer\(&mut buf\)\?;/#2of3
+//@@ after /let \w+ = iter\.fill_buffer\(&mut buf\)\?;/#6of7
                     // a record kind the reader does not interpret is passed over whole
                     proof { lemma_rec_read(h); cur = rec_rest(h); }
 //@@ after /self\.is_1904 = [^;]*;/
@@ -1541,7 +1575,7 @@ impl Xlsb<VerifRs> {
                         assert(self.is_1904 == (rec_payload(h)[0] % 2 == 1));
                         st = WbSt { is_1904: rec_payload(h)[0] % 2 == 1, ..st };
                     }
-//@@ after /let len = iter\.fill_buffer\(&mut buf\)\?;/#1of4
+//@@ after /let \w+ = iter\.fill_buffer\(&mut buf\)\?;/#1of7
                     let ghost pl = rec_payload(h);
                     proof {
                         lemma_rec_read(h);
@@ -1550,7 +1584,7 @@ impl Xlsb<VerifRs> {
                     }
 //@@ after /let rel_len = read_u32\([^;]*;/
                     let ghost rl32 = rel_len as int;
-                    proof { lemma_le32_sub(pl, 8, pl.len() as int); }
+                    proof { if pl.len() >= 12 { lemma_le32_sub(pl, 8, pl.len() as int); } }
 //@@ after /let relid = &buf\[[^;]*;/
                         let ghost relid_bytes = relid@;
 //@@ before /let path = /
@@ -1645,7 +1679,7 @@ impl Xlsb<VerifRs> {
 //@@ before /let typ = iter\.read_type\(\)\?;/
             let ghost h = cur;
             proof { lemma_wb2_step(h, st2, shn); lemma_rec_total(h); }
-//@@ after /let len = iter\.fill_buffer\(&mut buf\)\?;/#2of4
+//@@ after /let \w+ = iter\.fill_buffer\(&mut buf\)\?;/#4of7
                     let ghost pl = rec_payload(h);
                     proof {
                         lemma_rec_read(h);
@@ -1682,7 +1716,7 @@ impl Xlsb<VerifRs> {
                             st2 = Wb2St { ext: xti_names(pl, shn), ..st2 };
                         }
                     }
-//@@ after /let len = iter\.fill_buffer\(&mut buf\)\?;/#3of4
+//@@ after /let \w+ = iter\.fill_buffer\(&mut buf\)\?;/#5of7
                     let ghost pl = rec_payload(h);
                     proof {
                         lemma_rec_read(h);
